@@ -23,6 +23,7 @@ INT_BOUNDS = {
 
 STD_ENUMS = {
     'DropBehavior': ['Rollback', 'Commit', 'Ignore', 'Panic'],
+    'SecondsFormat': ['Secs', 'Millis', 'Micros', 'Nanos', 'AutoSi'],
     'Option': ['None', 'Some'], 'Result': ['Ok', 'Err'], 'Poll': ['Ready', 'Pending'],
     'ControlFlow': ['Continue', 'Break'], 'Entry': ['Occupied', 'Vacant'], 'Cow': ['Borrowed', 'Owned'],
     'Ordering': ['Less', 'Equal', 'Greater'],
